@@ -118,7 +118,7 @@ fn directive_programs() -> Vec<(String, String)> {
             add("db-zero-array", &format!("{} [{}]\nstart: hlt\n", db, n));
             add("dw-zero-array", &format!("b: {} [{}]\nstart: lea bx, word b\n", dw, n));
         }
-        for st in ["\"\"", "\"a\"", "\"Hello World\"", "\"with ; semicolon\"", "\"tab\\tno escape\"", "\"~!@#$%^&*()_+{}|:<>?\""] {
+        for st in ["\"press \"q\" to quit\"", "\"a\"b\"", "\"\"\"", "\"\"\"\"", "\"say \"\"\"", "\"it's\"", "\"a\\\"", "\"\"\"", "\"a\"", "\"Hello World\"", "\"with ; semicolon\"", "\"tab\\tno escape\"", "\"~!@#$%^&*()_+{}|:<>?\""] {
             add("db-string", &format!("s: {} {}\nstart: mov al, byte s\n", db, st));
             add("dw-string", &format!("{} {}\nstart: hlt\n", dw, st));
         }
@@ -240,6 +240,7 @@ pub fn run(ctx: &Ctx) {
         k
     };
     boundary_probes(ctx, &mut vm);
+    name_probes(ctx, &mut vm);
     near_miss_probes(ctx);
     if ctx.tier == Tier::Thorough {
         // coverage-guided search for an accepted program whose emitted lines a downstream parser refuses
@@ -248,6 +249,93 @@ pub fn run(ctx: &Ctx) {
     let g = crate::grammar::all_terminals();
     let unknown: Vec<&String> = g.difference(&known).collect();
     ctx.extra("grammar_terminals", json!({"in_grammar": g.len(), "unknown_to_enumerator": unknown}));
+}
+
+/// A name is a name: whatever identifier the assembler takes as a code label, data label, procedure or macro name
+/// (and as a macro parameter) must also be a name for the interpreter and the loaders.  Vocabulary: every
+/// identifier-like terminal that a DOWNSTREAM grammar of the working tree has and the assembler's grammar has not
+/// (extracted at run time), plausible program vocabulary, and mnemonics / keywords with one character added,
+/// each in lower, upper and capitalised spelling.
+fn name_probes(ctx: &Ctx, vm: &mut VM) {
+    let mut words: Vec<String> = crate::grammar::downstream_only_words();
+    ctx.extra("downstream_only_words", json!(words));
+    for w in ["halt", "stop", "end", "exit", "quit", "done", "next", "n", "q", "main", "begin", "data", "code", "stack", "loop1", "again", "skip", "fail", "ok", "error", "org", "equ", "proc", "endp", "ptr", "short",
+        "near", "far", "dup", "segment", "ends", "assume", "include", "label", "start1", "_start", "start_", "x", "y", "z", "_", "__", "a_1", "A1", "l", "f", "v", "t", "r", "e", "d", "h", "b", "o", "hex", "bin", "dec1",
+        "true", "false", "null", "none", "line", "output", "input", "int3", "trap", "step", "run", "show", "dump", "regs", "flag", "memory", "ip", "pc", "eax", "r8", "st0", "byte1", "word1", "dword", "qword", "db1", "dw1", "dd", "dq",
+        "repeat", "until", "while", "if", "then", "else", "jmp1", "call1", "ret1", "retn", "retf", "iretw", "movsb", "movsw", "cmpsb", "scasb", "lodsb", "stosb", "cwde", "cdq", "pusha", "popa", "enter", "leave", "bound",
+        "hlt1", "nop1", "int1", "into1", "cs1", "ds1", "es1", "ss1", "fs", "gs", "al1", "ax1", "si1", "flags1", "reg1", "mem1", "print1", "macro1", "def1", "set1", "offset1"] {
+        words.push(w.to_string());
+    }
+    // keywords of the assembler with one character appended / prepended
+    for t in crate::grammar::all_terminals() {
+        if t.chars().all(|c| c.is_ascii_alphabetic()) && t.chars().all(|c| c.is_ascii_lowercase()) && t.len() >= 2 {
+            words.push(format!("{}x", t));
+            words.push(format!("x{}", t));
+            words.push(format!("{}_", t));
+        }
+    }
+    words.sort();
+    words.dedup();
+    let mut variants: Vec<String> = Vec::new();
+    for w in &words {
+        variants.push(w.clone());
+        variants.push(w.to_uppercase());
+        let mut c = w.chars();
+        if let Some(f) = c.next() {
+            variants.push(format!("{}{}", f.to_uppercase(), c.as_str()));
+        }
+    }
+    variants.sort();
+    variants.dedup();
+    let _ = vm;
+    let mut jobs: Vec<(String, &'static str, String)> = Vec::new();
+    for w in &variants {
+        let progs = [
+            ("code-label", format!("start: jmp {w}\nstc\n{w}:\nje {w}\nloop {w}\nhlt\n", w = w)),
+            ("code-label-at-end", format!("start: jnz {w}\nclc\n{w}:\n", w = w)),
+            ("data-label", format!("{w}: dw 5\nstart: mov ax, word {w}\nmov bl, byte {w}\nadd word {w}, 2\nmov cx, offset {w}\nlea dx, word {w}\npush word {w}\nshl byte {w}, 1\n", w = w)),
+            ("procedure", format!("def {w} {{ stc }}\nstart: call {w}\ncall {w}\n", w = w)),
+            ("macro-name", format!("macro {w}(a) -> add ax, a <-\nstart: {w}(5)\n", w = w)),
+            ("macro-parameter", format!("macro m_q({w}) -> add ax, {w} <-\nstart: m_q(bx)\nm_q(7)\n", w = w)),
+            ("macro-argument-label", format!("macro j_q(a) -> jmp a <-\nstart: j_q({w})\n{w}:\n", w = w)),
+        ];
+        for (kind, src) in progs {
+            jobs.push((w.clone(), kind, src));
+        }
+    }
+    let results: Vec<(Local, Vec<Failure>)> = jobs
+        .par_chunks(128)
+        .map(|chunk| {
+            let mut vm = VM::new();
+            let mut local = Local::default();
+            let mut fails = Vec::new();
+            for (w, kind, src) in chunk {
+                local.evals += 1;
+                match downstream(&mut vm, src) {
+                    Down::Ok { .. } => {
+                        local.class(&format!("c10/name-probe/{}/accepted", kind));
+                        local.nontrivial += 1;
+                    }
+                    Down::Rejected(_) => local.class(&format!("c10/name-probe/{}/refused-by-assembler", kind)),
+                    Down::Bad { stage, line, err } => fails.push(Failure {
+                        key: format!("c10|{}|name-probe|{}|{}", stage, kind, w.to_lowercase()),
+                        what: format!("the assembler accepts '{}' as a {} but downstream it is not a name: {} refuses emitted line '{}': {} -- program {:?}", w, kind, stage, line, err, src),
+                        replay: json!({"kind":"c10","source":src}),
+                    }),
+                }
+            }
+            (local, fails)
+        })
+        .collect();
+    for (l, fails) in results {
+        l.merge_into(ctx);
+        for f in fails {
+            ctx.fail(f);
+        }
+    }
+    for k in ["code-label", "data-label", "procedure", "macro-name", "macro-parameter"] {
+        ctx.require_class(&format!("c10/name-probe/{}/accepted", k), 100);
+    }
 }
 
 /// Programs on both sides of every acceptance boundary of the assembler (constant ranges, address
